@@ -52,7 +52,10 @@ def check_flag_lists(obj, label, fails, ctx):
 
 
 def oracle_typing(c):
-    d, tracts = parsing.make_plss(c, parse_qq=True)
+    made = parsing.make_plss_or_skip(c, parse_qq=True)
+    if made is None:
+        return []
+    d, tracts = made
     fails = []
     ctx = parsing.render(c)
     committed = c["entry"] != "parse_kw_nocommit"
